@@ -385,7 +385,7 @@ Section G.
   Lemma closer_nostart rest : closer_next rest -> nostart rest.
   Proof.
     unfold closer_next, nostart. destruct (skip rest) as [|t r]; [contradiction|].
-    destruct (cl t) as [| |k0| | | | | | | | | | | |o| | |k| | | |]; try (exact (fun H => H)); cbn; try discriminate; try reflexivity.
+    destruct (cl t) as [| |k0| | | | | | | | | | | |o| | |k| | | |dk| |]; try (exact (fun H => H)); cbn; try discriminate; try reflexivity.
     intro H. rewrite H. reflexivity.
   Qed.
 
@@ -410,7 +410,7 @@ Section G.
   Lemma stmt1_fails pe pl f t r : nonstart (cl t) = true -> stmt1 pe pl f (t :: r) = Fail.
   Proof.
     intro H. unfold StParser.stmt1, StParser.assign, StParser.pvariable, StParser.fbcall, StParser.ident.
-    destruct (cl t) as [| |k0| | | | | | | | | | | |o| | |k| | | |]; cbn in H; try discriminate; try reflexivity.
+    destruct (cl t) as [| |k0| | | | | | | | | | | |o| | |k| | | |dk| |]; cbn in H; try discriminate; try reflexivity.
     destruct k; cbn in H; try discriminate; reflexivity.
   Qed.
 
@@ -603,11 +603,11 @@ Section G.
     intros Hw0 Hx Hms Hw1 Hcolon. unfold closer_next. rewrite (skip_app_triv tk cl w0 _ Hw0).
     destruct x as [i|i1 xw1 dots xw2 i2|n]; cbn [wf_sel flat_sel] in *.
     - destruct (flat_int_head i (flat_mss ms ++ w1 ++ colon :: r) Hx) as (t & r' & E & Ht & Hs). rewrite E, (skip_solid tk cl t r' Ht).
-      destruct (cl t) as [| |k0| | | | | | | | | | | |o| | |k| | | |]; try discriminate Hs; exact Hs.
+      destruct (cl t) as [| |k0| | | | | | | | | | | |o| | |k| | | |dk| |]; try discriminate Hs; exact Hs.
     - destruct Hx as (Hi1 & _). rewrite <- app_assoc.
       destruct (flat_int_head i1 ((xw1 ++ dots :: xw2 ++ flat_int i2) ++ flat_mss ms ++ w1 ++ colon :: r) Hi1) as (t & r' & E & Ht & Hs).
       rewrite E, (skip_solid tk cl t r' Ht).
-      destruct (cl t) as [| |k0| | | | | | | | | | | |o| | |k| | | |]; try discriminate Hs; exact Hs.
+      destruct (cl t) as [| |k0| | | | | | | | | | | |o| | |k| | | |dk| |]; try discriminate Hs; exact Hs.
     - cbn [app]. rewrite (skip_solid tk cl n _) by (unfold StExprProofs.solid; rewrite Hx; discriminate). rewrite Hx.
       destruct (mss_follow ms w1 colon r Hms Hw1 Hcolon) as (fw & ft & fr & Ef & Hfw & Hft).
       rewrite Ef, (skip_app_triv tk cl fw _ Hfw). rewrite (skip_solid tk cl ft fr); [exact Hft|].
